@@ -13,6 +13,7 @@ no_appdata_on_reject (plaintext decrypted by the peer), appdata_delivered (tagge
 from __future__ import annotations
 
 import atexit
+import logging
 import ssl
 
 from mitmproxy import connection
@@ -34,7 +35,7 @@ ENGINE = "sansio"
 TECHNIQUE = "constructed certificate matrix with ground truth by construction; real OpenSSL peers in memory"
 BUDGET = {"quick": (480, 18), "thorough": (40_000, 200)}
 WORKERS = {"quick": 4, "thorough": 16}
-REQUIRED = ["accept_when_expected", "reject_when_expected", "failure_signalled", "no_appdata_on_reject", "appdata_delivered", "insecure_waives", "foreign_anchor_vs_trust_config"]
+REQUIRED = ["accept_when_expected", "reject_when_expected", "failure_signalled", "no_appdata_on_reject", "appdata_delivered", "insecure_waives", "foreign_anchor_vs_trust_config", "hook_fault_cells"]
 RULE = (
     "cell = (leaf class x identity form x identity source x trust configuration x ssl_insecure); leaf classes: SAN exact / "
     "among many / other name / left-most wildcard / wildcard spanning two labels / partial wildcards / inner wildcard / CN only / "
@@ -44,7 +45,10 @@ RULE = (
     "identity forms: DNS name, upper-case, A-label, U-label, IPv4, IPv6; identity sources: server.sni, client.sni (address names "
     "something else), server address; trust: CA file, hashed CA directory only, default store (certifi stand-in root), CA file of "
     "another root, CA file + hashed directory of a second CA; issuers: configured CA, directory-only CA, certifi stand-in CA, "
-    "unknown CA, self-signed. The matrix (complete cross of class x identity form x source x ssl_insecure under the CA-file "
+    "unknown CA, self-signed; plus hook-fault cells: an SNI set by an addon that is empty / has a 64-byte or empty label / a NUL / "
+    "non-IDNA characters, so that the real tls_start_server hook (dispatched through AddonManager.trigger, exceptions swallowed "
+    "as in production) fails after creating the SSL object, crossed with certificates that match / do not match the server "
+    "address. The matrix (complete cross of class x identity form x source x ssl_insecure under the CA-file "
     "configuration, class x identity form under every other trust configuration) "
     "is enumerated once with canonical names (both tiers), further cases repeat random cells with random labels, "
     "validity windows, TLS 1.2/1.3 peers, lazy/eager connection flow and random segmentation of the server flight. "
@@ -102,6 +106,20 @@ IP_CLASSES = {
 }
 ID_FORMS = ["dns", "upper", "idn-a", "idn-u", "ipv4", "ipv6"]
 SOURCES = ["server.sni", "client.sni", "address"]
+# identity forms under which the real tls_start_server hook fails part-way (after it has created the SSL object): an SNI set
+# by an addon that is empty or cannot be turned into a TLS host name; the server address is a normal name / IP.
+# "raises": the hook raises on the unchanged tree (the exception is swallowed by the addon manager like in production).
+FAULT_FORMS = {
+    "fault-sni-empty": ("", "dns"),
+    "fault-sni-empty-ipaddr": ("", "ip"),
+    "fault-sni-label64": ("a" * 64 + ".svc.example.test", "dns"),
+    "fault-sni-emptylabel": ("www..svc.example.test", "dns"),
+    "fault-sni-nul": ("www\x00.svc.example.test", "dns"),
+    "fault-sni-xn-garbage": ("xn--zz--zz\u00fc.svc.example.test", "dns"),
+    "fault-sni-none-set-late": (None, "dns"),
+}
+FAULT_DNS_CLASSES = ["san-exact", "san-other", "wildcard-leftmost", "wildcard-two-labels", "cn-only", "other-root", "expired"]
+FAULT_IP_CLASSES = ["ipsan-exact", "ipsan-other", "ip-as-dnsname", "ipsan-other-root"]
 TRUSTS = ["cafile", "cadir", "default", "cafile-b", "file+dir"]
 # trust anchors of each configuration: A = the configured CA, B = another private root, C = stand-in for the certifi
 # bundle (only in force when neither a CA file nor a CA directory is configured), D = a CA that only lives in a hashed directory
@@ -117,6 +135,15 @@ def full_product():
         for src in SOURCES
         for trust in TRUSTS
         for insecure in (False, True)
+    ] + fault_cells() * 4
+
+
+def fault_cells():
+    return [
+        (cls, idf, "server.sni", trust, False)
+        for idf, (_, kind) in FAULT_FORMS.items()
+        for cls in (FAULT_IP_CLASSES if kind == "ip" else FAULT_DNS_CLASSES)
+        for trust in ("cafile", "cadir")
     ]
 
 
@@ -139,7 +166,7 @@ def matrix():
                 cells.append((cls, idf, SOURCES[n % 3], trust, False))
                 if trust == "default":
                     cells.append((cls, idf, SOURCES[(n + 1) % 3], trust, True))
-    return cells
+    return cells + fault_cells()
 
 
 def rl(r, n=None):
@@ -148,6 +175,14 @@ def rl(r, n=None):
 
 def identity(idf, r=None):
     """-> (identity string handed to mitmproxy, canonical lower-case A-label / IP string for the certificate)"""
+    if idf in FAULT_FORMS:
+        sni, kind = FAULT_FORMS[idf]
+        if kind == "ip":
+            return sni, ("192.0.2.7" if r is None else f"192.0.2.{r.randrange(1, 250)}")
+        a, b, c = ("www", "svc", "example") if r is None else ("w" + rl(r), rl(r), rl(r))
+        if sni and r is not None:
+            sni = sni.replace(".svc.example.test", f".{b}.{c}.test")
+        return sni, f"{a}.{b}.{c}.test"
     if idf == "ipv4":
         ip = "192.0.2.7" if r is None else f"192.0.2.{r.randrange(1, 250)}"
         return ip, ip
@@ -235,8 +270,16 @@ def leaf_for(pki: Pki, cls, canon, r=None):
     return [leaf, *extra], sans, cn
 
 
-def expected(cls, trust, insecure):
+def expected(cls, trust, insecure, idf=None):
+    """True: must be accepted; False: must be rejected; None: no requirement (hook failed part-way but the certificate
+    would have been fine for the address: failing closed and accepting are both within the statement)."""
     issuer, chain, time, names_ok = (IP_CLASSES if cls in IP_CLASSES else DNS_CLASSES)[cls]
+    if idf in FAULT_FORMS:
+        assert not insecure
+        good = expected(cls, trust, False)
+        if idf == "fault-sni-xn-garbage":
+            return False  # the requested SNI is a name no certificate class here carries
+        return None if good else False
     if insecure:
         return True
     anchor = {"root_a": "A", "int_a": "A", "int_a_expired": "A", "root_b": "B", "root_c": "C", "root_d": "D", "self": None}[issuer]
@@ -325,6 +368,15 @@ class Probe(layer.Layer):
             self.closed += 1
 
 
+class _LogCapture(logging.Handler):
+    def __init__(self):
+        super().__init__(level=logging.ERROR)
+        self.msgs = []
+
+    def emit(self, record):
+        self.msgs.append(record.getMessage()[:160])
+
+
 _STATE = {}
 
 
@@ -363,7 +415,12 @@ def run_cell(cell, r, canonical):
     client = connection.Client(peername=("198.51.100.7", 51234), sockname=("127.0.0.1", 8080), timestamp_start=1.0, state=connection.ConnectionState.OPEN)
     ctx = context.Context(client, tctx.options)
     srv = ctx.server
-    if src == "server.sni":
+    if idf in FAULT_FORMS:
+        srv.address = (canon, 443)  # the certificate classes are relative to the address; the SNI is what an addon broke
+        srv.sni = ident
+        if idf == "fault-sni-none-set-late":
+            client.sni = "www\x00.broken.test"  # picked up by the hook because server.sni is None
+    elif src == "server.sni":
         srv.address = ("203.0.113.9", 443)
         srv.sni = ident
     elif src == "client.sni":
@@ -378,7 +435,7 @@ def run_cell(cell, r, canonical):
     probe = Probe(ctx, lazy)
     top.child_layer = probe
 
-    o = {"established": 0, "failed": 0, "closed": 0, "start_hooks": 0, "logs": [], "to_peer": 0, "steps": 0, "hook_exc": None, "failed_err": None}
+    o = {"established": 0, "failed": 0, "closed": 0, "start_hooks": 0, "logs": [], "to_peer": 0, "steps": 0, "addon_errors": [], "failed_err": None}
     inbox = []  # bytes from mitmproxy to the peer
 
     def pump(ev):
@@ -391,10 +448,14 @@ def run_cell(cell, r, canonical):
                     raise RuntimeError("driver step budget exceeded")
                 if isinstance(cmd, tls.TlsStartServerHook):
                     o["start_hooks"] += 1
+                    # production dispatch: AddonManager.trigger logs and swallows exceptions raised by the hook
+                    cap = _LogCapture()
+                    logging.getLogger("mitmproxy.addonmanager").addHandler(cap)
                     try:
-                        ta.tls_start_server(cmd.data)
-                    except Exception as ex:  # noqa -- reported by the caller
-                        o["hook_exc"] = ex
+                        tctx.master.addons.trigger(cmd)
+                    finally:
+                        logging.getLogger("mitmproxy.addonmanager").removeHandler(cap)
+                    o["addon_errors"].extend(cap.msgs)
                     pending.append(events.HookCompleted(cmd))
                 elif isinstance(cmd, tls.TlsEstablishedServerHook):
                     o["established"] += 1
@@ -435,6 +496,13 @@ def run_cell(cell, r, canonical):
                 if srv.state is connection.ConnectionState.CLOSED:
                     break
                 pump(events.DataReceived(srv, back[a:b]))
+    o["stalled_until_close"] = False
+    if top.tunnel_state.name == "ESTABLISHING" and not inbox and not peer.handshaken and srv.state is not connection.ConnectionState.CLOSED:
+        # Nothing is in flight and the handshake can make no progress (e.g. the hook failed and no ClientHello was ever
+        # sent): on a real network the peer or the idle watchdog ends this; deliver that close.
+        o["stalled_until_close"] = True
+        srv.state = connection.ConnectionState.CLOSED
+        pump(events.ConnectionClosed(srv))
     # let the peer see whatever is left (alerts, application data)
     while inbox:
         peer.inc.write(inbox.pop(0))
@@ -455,20 +523,28 @@ def classify(cell, kind):
 
 def judge(ctx, cell, o):
     cls, idf, src, trust, insecure = cell
-    exp = expected(cls, trust, insecure)
+    exp = expected(cls, trust, insecure, idf)
     if cls in ("certifi-root", "ipsan-certifi-root", "dir-only-root") and not insecure:
         ctx.count("foreign_anchor_vs_trust_config")  # public-bundle / directory-only CA against each trust configuration
     w = {
         "cell": {"class": cls, "identity_form": idf, "identity_source": src, "trust": trust, "ssl_insecure": insecure},
         "identity": o["ident"], "leaf_sans": o["sans"], "leaf_cn": o["cn"], "flow": "lazy" if o["lazy"] else "eager",
-        "peer_tls13": o["max13"], "expected": "accept" if exp else "reject",
+        "peer_tls13": o["max13"], "stalled_until_peer_close": o["stalled_until_close"], "expected": {True: "accept", False: "reject", None: "either"}[exp], "addon_errors": o["addon_errors"][:2],
         "observed": {k: o[k] for k in ("completed", "established", "failed", "closed", "srv_error", "srv_tls", "peer_handshaken", "peer_error", "tunnel_state", "tls_version")},
         "peer_plaintext": o["peer_plain"][:64], "logs": o["logs"][:3],
     }
-    if o["hook_exc"] is not None:
-        ctx.violation(f"tls_start_server-raises:{type(o['hook_exc']).__name__}", {**w, "exc": repr(o["hook_exc"])[:300]}, classify(cell, "hook-raises"))
+    if idf in FAULT_FORMS:
+        ctx.count("hook_fault_cells")
+        ctx.seen("hook_fault_outcomes", f"{idf}: hook error={bool(o['addon_errors'])} established={o['established']} failed={o['failed']} stalled_until_close={o['stalled_until_close']}")
+    elif o["addon_errors"]:
+        ctx.violation("tls_start_server-raises", w, classify(cell, "hook-raises"))
         return "hook-raises"
     ok = o["completed"] == [None] and o["established"] == 1 and o["srv_tls"]
+    if exp is None:
+        ctx.count("no_requirement_cells")
+        if o["peer_plain"] and not ok:
+            ctx.violation("application-data-without-established-connection", w, classify(cell, "appdata"))
+        return "accept" if ok else "reject"
     if exp:
         ctx.count("accept_when_expected")
         if insecure:
